@@ -300,6 +300,37 @@ let seq l cap line =
   Buffer.add_string b (Printf.sprintf " end=%d/%d" off n);
   Buffer.contents b
 
+(* sizes: S-expressions in which (bsz N) / (tsz N) are definite strings with a DECLARED length N *)
+let rec parse_sitem (ts : string list) : sitem * string list =
+  match ts with
+  | "(" :: kind :: rest ->
+    let close r = match r with ")" :: r' -> r' | _ -> raise (Parse "expected )") in
+    let rec items r acc = match r with
+      | ")" :: r' -> (List.rev acc, r')
+      | _ -> let (x, r') = parse_sitem r in items r' (x :: acc) in
+    let rec nums r acc = match r with
+      | ")" :: r' -> (List.rev acc, r')
+      | h :: r' -> nums r' (n_of_string h :: acc)
+      | [] -> raise (Parse "eof") in
+    let rec pairs l = match l with k :: v :: r -> (k, v) :: pairs r | [] -> [] | _ -> raise (Parse "odd map") in
+    (match kind with
+     | "bsz" | "tsz" -> (match rest with v :: r -> (SStr (n_of_string v), close r) | _ -> raise (Parse "sz"))
+     | "bszi" | "tszi" -> let (ls, r) = nums rest [] in (SChunked ls, r)
+     | "arr" -> let (xs, r) = items rest [] in (SArr (false, xs), r)
+     | "arri" -> let (xs, r) = items rest [] in (SArr (true, xs), r)
+     | "map" -> let (xs, r) = items rest [] in (SMap (false, pairs xs), r)
+     | "mapi" -> let (xs, r) = items rest [] in (SMap (true, pairs xs), r)
+     | "tag" -> (match rest with v :: r -> let (x, r') = parse_sitem r in (STag (n_of_string v, x), close r') | _ -> raise (Parse "tag"))
+     | _ -> let (it, r) = parse_item ts in (shape it, r))
+  | _ -> raise (Parse "expected (")
+let sizes line =
+  let (t, _) = parse_sitem (sexp_tokens line) in
+  Printf.sprintf "size=%s" (string_of_n (ssize_s t))
+let sizes_spec line =
+  let (t, _) = parse_sitem (sexp_tokens line) in
+  let tot = total_s t in
+  Printf.sprintf "size=%s" (if N.ltb tot (n_of_string "18446744073709551616") then string_of_n tot else "0")
+
 let ser line =
   let t = item_of_sexp line in
   let sz = ssize t in
@@ -403,6 +434,7 @@ let parse_op (ws : string list) : op =
   | ["copy"; h] -> OCopy (nat_of_string h)
   | ["load"; h] -> OLoad (bytes_of_hex h)
   | ["ssize"; h] -> OSerSize (nat_of_string h)
+  | ["desc"; h] -> OSerSize (nat_of_string h)      (* cbor_describe: the same read-only traversal; its text output is not modelled *)
   | ["ser"; h; n] -> OSerialize (nat_of_string h, n_of_string n)
   | ["salloc"; h] -> OSerAlloc (nat_of_string h)
   | _ -> failwith ("op " ^ String.concat " " ws)
@@ -417,12 +449,13 @@ let event_s = function
   | EvRealloc (o, sz, r) -> Printf.sprintf "R%s:%s:%s" (ido o) (string_of_n sz) (ido r)
   | EvFree p -> "F" ^ ido p
 
+let describe_mode = ref false
 let out_s (o : out) (op : op) : string =
   match o with
   | OutHandle ok -> if ok then "ok" else "NULL"
   | OutBool b -> if b then "1" else "0"
   | OutUnit -> "-"
-  | OutNum n -> string_of_n n
+  | OutNum n -> (match op with OSerSize _ when !describe_mode -> "-" | _ -> string_of_n n)
   | OutBytes (ret, bytes) ->
       (match op with
        | OSerialize (_, n) -> Printf.sprintf "%s:%s" (string_of_n ret) (image bytes (int_of_n n))
@@ -445,6 +478,7 @@ let run_history (l : n) (cap : n) (mode : string) (k : n) (line : string) : stri
       let opws = split_ws (List.hd parts) in
       let probes = match parts with [_; p] -> List.map int_of_string (split_ws p) | _ -> [] in
       let o = parse_op opws in
+      describe_mode := (match opws with "desc" :: _ -> true | _ -> false);
       (match step refuse l !st o !w with
        | Fault kd -> faulted := true; Buffer.add_string b ("FAULT:" ^ fkind_s kd ^ ";")
        | Ret ((s', ot), w') ->
@@ -507,6 +541,7 @@ let () =
     | "load" -> load_ (arg 2) (arg 3)
     | "load_spec" -> load_spec_ (arg 2) (arg 3)
     | "rt" -> rt (arg 2) (arg 3)
+    | "sizes" -> sizes | "sizes_spec" -> sizes_spec
     | "seq" -> seq (arg 2) (arg 3)
     | "loadpost" | "depth" -> loadpost (arg 2) (arg 3)
     | "copy" -> copy_
